@@ -211,6 +211,11 @@ StructTab == [i \in CatIds |->
                 CHOOSE j \in CatIds : ObjSameStruct(j, i) /\ \A k \in 1..(j - 1) : ~ObjSameStruct(k, i)]
 Canon(i)  == CanonTab[i]
 StructOf(i) == StructTab[i]
+\* pytools' KeyBuilder (third party) keys numpy scalars by their own type: for it a numpy
+\* constant is a different structure; pymbolic's own walker normalises numpy scalars
+StructKBTab == [i \in CatIds |->
+                CHOOSE j \in CatIds : Cat[j] = Cat[i] /\ \A k \in 1..(j - 1) : Cat[k] # Cat[i]]
+StructFor(kind, i) == IF kind = "kb" THEN StructKBTab[i] ELSE StructTab[i]
 
 IsCompiled(i) == Cat[i].kind = "compiled"
 IsHashable(i) == Hashable(Cat[i].e)
